@@ -480,7 +480,8 @@ func (ctx *fromJSONSchemaContext) convertObject(s *lib.Schema) (core.ZodSchema, 
 		for _, req := range s.Required {
 			shape[req] = types.Unknown()
 		}
-		return types.Object(shape), nil
+		// Unknown keys are valid: the object is open.
+		return types.Object(shape).Passthrough(), nil
 	}
 
 	// Build object shape
@@ -516,7 +517,8 @@ func (ctx *fromJSONSchemaContext) convertObject(s *lib.Schema) (core.ZodSchema, 
 		}
 	}
 
-	result := types.Object(shape)
+	// Unknown keys are valid unless additionalProperties says otherwise.
+	result := types.Object(shape).Passthrough()
 
 	// Handle additionalProperties
 	if s.AdditionalProperties != nil {
